@@ -445,6 +445,18 @@ class TheJoker:
         else:
             MAP_sample = joker_samples
 
+        # M0 and the trend coefficients of the samples refer to the samples' own
+        # reference epoch; the model below is built about the data's
+        if MAP_sample.t_ref is not None and (
+            abs(MAP_sample.t_ref.tcb.mjd - data._t_ref_bmjd) > 1e-9
+        ):
+            msg = (
+                "The reference epoch of the samples differs from the reference "
+                "epoch of the data: pass in the data the samples were generated "
+                "with, or data with t_ref=joker_samples.t_ref"
+            )
+            raise ValueError(msg)
+
         mcmc_init = {}
         for name in self.prior.par_names:
             unit = getattr(self.prior.pars[name], xu.UNIT_ATTR_NAME)
